@@ -33,7 +33,7 @@ pub static DEF: CheckDef = CheckDef {
 const GRID: u64 = 27 * 4 * 7 * 2 * 5;
 
 fn families(t: Tier) -> Vec<(&'static str, u64)> {
-    vec![("grid", GRID), ("rand", t.n(12_000, 300_000)), ("rank1", t.n(2_000, 60_000)), ("mismatch", t.n(3_000, 60_000)), ("nonfinite", t.n(2_000, 60_000)), ("large", t.n(1_500, 40_000))]
+    vec![("grid", GRID), ("rand", t.n(12_000, 1_500_000)), ("rank1", t.n(2_000, 300_000)), ("mismatch", t.n(3_000, 300_000)), ("nonfinite", t.n(2_000, 300_000)), ("large", t.n(1_500, 150_000))]
 }
 fn floors(_t: Tier) -> Vec<(&'static str, u64)> {
     vec![("evaluations", 15_000), ("admissible_checked", 10_000), ("refusals_observed", 1_500)]
